@@ -44,6 +44,22 @@ pub open spec fn packet_seq(p: Packet) -> u64 {
     }
 }
 
+/// the channel a message-carrying packet is labelled with on the wire (the receiver routes by it); an Ack packet carries none
+pub open spec fn packet_channel(p: Packet) -> Option<u8> {
+    match p {
+        Packet::SmallReliable { sequence, channel_id, messages } => Some(channel_id),
+        Packet::SmallUnreliable { sequence, channel_id, messages } => Some(channel_id),
+        Packet::UnreliableSlice { sequence, channel_id, slice } => Some(channel_id),
+        Packet::ReliableSlice { sequence, channel_id, slice } => Some(channel_id),
+        Packet::Ack { sequence, ack_ranges } => None,
+    }
+}
+
+/// C03/C11: every packet of `s` is labelled with channel `c` (nothing a channel hands out can be delivered to another channel)
+pub open spec fn all_from_channel(s: Seq<Packet>, c: u8) -> bool {
+    forall|i: int| 0 <= i < s.len() ==> packet_channel(#[trigger] s[i]) == Some(c)
+}
+
 /// serialized size of the message part of a SmallUnreliable packet: sum of (varint length prefix + bytes)
 pub open spec fn small_unreliable_body(s: Seq<Bytes>) -> nat
     decreases s.len(),
